@@ -8,8 +8,9 @@ if rc != 0:
     print("setup: translate.py failed (continuing; checks will report it)")
 rc1 = subprocess.call(["lake", "build"], cwd=vlib.LEAN)
 shutil.copyfile(os.path.join(vlib.REPO, "Cargo.lock"), os.path.join(vlib.HARNESS, "Cargo.lock"))
-rc2 = subprocess.call(["cargo", "build", "--offline"], cwd=vlib.HARNESS, env=vlib.ENV)
-rc3 = subprocess.call(["cargo", "build", "--offline", "--release"], cwd=vlib.HARNESS, env=vlib.ENV)
+henv = dict(vlib.ENV, CARGO_TARGET_DIR=os.path.join(vlib.BUILD, "cargo"))
+rc2 = subprocess.call(["cargo", "build", "--offline"], cwd=vlib.HARNESS, env=henv)
+rc3 = subprocess.call(["cargo", "build", "--offline", "--release"], cwd=vlib.HARNESS, env=henv)
 rc4 = subprocess.call(["cargo", "build", "--offline", "--features", "preserve_order"], cwd=vlib.HARNESS,
                       env=dict(vlib.ENV, CARGO_TARGET_DIR=os.path.join(vlib.BUILD, "cargo_po")))
 # C18 feature cells of the quick tier
